@@ -3,6 +3,7 @@ package c04
 import (
 	"encoding/json"
 	"fmt"
+	"math"
 	"reflect"
 	"testing"
 	"time"
@@ -279,4 +280,125 @@ func TestDamageGrid(t *testing.T) {
 		}
 	}
 	ev.Exhaustive("damage grid: every settable location of the native values of 5 struct-mapped schemas x {zeroed, every native catalogue value that fits the location} x {Validate, Serialize}")
+}
+
+// entryBases: for every map-shaped grid schema, raw values that the schema accepts as they are (so that an operation
+// gets past discriminator lookup, required checks and the like before it meets the extra entry).
+func entryBases(k *spec.Spec) []val.V {
+	kv := func(key val.V, v val.V) val.KV { return val.KV{K: key, V: v} }
+	m := func(e ...val.KV) val.V { return val.V{T: "map[any]any", M: e} }
+	one, x := val.Int("int64", 1), val.Str("x")
+	switch k.Kind {
+	case spec.KObject:
+		if k.Struct != "" {
+			return []val.V{m(), m(kv(val.Str("i"), one))}
+		}
+		return []val.V{m(kv(val.Str("p0"), one))}
+	case spec.KOneOfS:
+		if k.Inlined {
+			return []val.V{m(kv(val.Str("k"), val.Str("a")), kv(val.Str("a"), one)), m(kv(val.Str("k"), val.Str("b")), kv(val.Str("b"), x))}
+		}
+		return []val.V{m(kv(val.Str("_type"), val.Str("a"))), m(kv(val.Str("_type"), val.Str("1")), kv(val.Str("a"), x))}
+	case spec.KOneOfI:
+		return []val.V{m(kv(val.Str("_type"), one)), m(kv(val.Str("_type"), val.Int("int64", 2)), kv(val.Str("a"), x))}
+	case spec.KMap:
+		switch k.Keys.Kind {
+		case spec.KInt:
+			return []val.V{m(kv(one, x))}
+		case spec.KEnumS:
+			return []val.V{m(kv(val.Str("a"), val.V{T: "[]any"}))}
+		}
+		return []val.V{m(kv(val.Str("a"), one))}
+	case spec.KAny:
+		return []val.V{m(kv(val.Str("a"), one))}
+	case spec.KScope:
+		return []val.V{m(kv(val.Str("v"), one))}
+	}
+	return nil
+}
+
+// TestEntryGrid: a value the schema accepts, plus ONE extra entry - every odd key kind x a few values - at every
+// map-shaped grid schema and placement, for the operations that take decoder-domain maps. The catalogue grid only
+// has maps that are odd as a whole; an operation that first looks up a discriminator or a required property and only
+// then walks the entries meets an odd key only in a map that is otherwise in order.
+func TestEntryGrid(t *testing.T) {
+	if ev.Replaying() {
+		t.Skip()
+	}
+	w := worker()
+	defer func() {
+		w.Close()
+		theWorker = nil
+	}()
+	keys := []val.V{val.Nil(), val.Bool(true), val.Int("int64", 1), val.Int("int64", 2), val.Uint("uint64", 1), val.Int("int", 1), val.Float("float64", 0.5), val.Float("float64", math.NaN()),
+		val.Float("float64", math.Inf(1)), val.Str("zz_extra"), val.Str(""), val.Str("_type"), val.Str("k"), val.Str("a"), {T: "time", S: "86400"}, {T: "tag", S: "42", L: []val.V{val.Int("int64", 1)}},
+		{T: "simple", S: "200"}, {T: "array", L: []val.V{val.Int("int64", 1), val.Str("a")}}, val.V{T: "mystr", S: "a"}}
+	vals := []val.V{val.Nil(), val.Int("int64", 1), val.Str("v"), {T: "map[any]any"}}
+	specs, places := gridSpecs(), gridPlacements()
+	idx, total := 0, 0
+	for si, k := range specs {
+		bases := entryBases(k)
+		if len(bases) == 0 {
+			continue
+		}
+		for _, pl := range places {
+			s := pl.schema(k)
+			for _, op := range []string{"unserialize", "compat", "validate", "serialize"} {
+				idx++
+				var batch []val.V
+				for _, b := range bases {
+					for _, key := range keys {
+						for _, v := range vals {
+							e := val.V{T: b.T, M: append(append([]val.KV(nil), b.M...), val.KV{K: key, V: v})}
+							batch = append(batch, pl.value(e))
+						}
+					}
+				}
+				total += len(batch)
+				if !ev.Mine(idx) {
+					continue
+				}
+				c := Case{Spec: s, Op: op, Batch: batch, PosKind: "entry:" + pl.name + ":" + k.Kind}
+				bad := -1
+				var msg string
+				body, crash := w.Do(c, 60*time.Second)
+				if crash != nil {
+					for i := range batch {
+						one := Case{Spec: s, Op: op, Value: batch[i], PosKind: c.PosKind}
+						if m, _ := judge(w, one); m != "" {
+							bad, msg = i, m
+							break
+						}
+					}
+					if bad < 0 {
+						ev.Class("grid_unreproduced_batch_crash", 1)
+					}
+				} else {
+					var r batchResult
+					if err := json.Unmarshal(body, &r); err != nil {
+						t.Fatalf("harness: bad worker answer: %v", err)
+					}
+					if r.Skipped != "" {
+						t.Fatalf("harness bug: entry grid batch skipped: %s", r.Skipped)
+					}
+					if r.Index >= 0 {
+						one := Case{Spec: s, Op: op, Value: batch[r.Index], PosKind: c.PosKind}
+						bad, msg = r.Index, fmt.Sprintf("operation panicked: %s\n at %s\n%s(%s) at a %s position\nschema: %s", r.Text, r.Frame, op, one.Value, one.PosKind, specJSON(s))
+					}
+					ev.Class("entry_grid_outcome:error", int64(r.Errors))
+					ev.Class("entry_grid_outcome:value", int64(r.Values-r.Errors))
+				}
+				for i := range batch {
+					ev.Case(ev.FP("entrygrid", si, pl.name, op, i), true, "class:entry_grid", "op:"+op)
+				}
+				if ev.WantSample("entry_grid_" + op) {
+					ev.Sample("entry_grid_"+op, Case{Spec: s, Op: op, Value: batch[len(batch)/2], PosKind: c.PosKind})
+				}
+				if bad >= 0 {
+					ev.Fail(t, "op", Case{Spec: s, Op: op, Value: batch[bad], PosKind: c.PosKind}, "%s", msg)
+				}
+			}
+		}
+	}
+	ev.Exhaustive(fmt.Sprintf("entry grid: %d operations = accepted base values of every map-shaped grid schema + one extra entry (%d key kinds x %d values) x %d placements x 4 operations", total, len(keys), len(vals), len(places)))
 }
